@@ -21,6 +21,7 @@ structure F where
   sent : List Byte := []               -- bytes the client has sent, in order
   clean : Bool := true                 -- the side condition has held at every step so far
   lastNone : Bool := false             -- the last step was an extraction that returned no command
+  aborted : Bool := false              -- the last read was left through an error raised by process_input
 
 /-- the explicit side condition, checked step by step:
     * at a read, the pending text is below the discard threshold of get_user_data
@@ -30,17 +31,20 @@ structure F where
 def readOK (s : S) : Bool :=
   match s.port with
   | .telnet => keepsPending (s.tend - s.tstart)
-  | _ => decide (s.tend + asciiReserve + 1 ≤ MAXT)       -- PORT_ASCII: the buffer is not full (else: line discarded)
+  | _ => decide (s.tend - s.tstart + asciiReserve + 1 ≤ MAXT)   -- PORT_ASCII: the pending text does not fill the buffer (else: discarded)
 
-def fStep (f : F) : FOp → Except String F
+def hasAbort (evs : List Ev) : Bool := evs.any (fun e => e == .cberr)
+
+def fStep (o : Oracle) (f : F) : FOp → Except String F
   | .send b => .ok { f with s := { f.s with sock := f.s.sock ++ b }, sent := f.sent ++ b, lastNone := false }
   | .read =>
-    match getUserData f.s with
+    match getUserData o f.s with
     | .error e => .error e
     | .ok (s', evs) =>
       .ok { f with s := s', received := f.received ++ f.s.sock.take (f.s.sock.length - s'.sock.length),
                    delivered := f.delivered ++ inputsOf evs,
-                   clean := f.clean && readOK f.s, lastNone := false }
+                   clean := f.clean && readOK f.s, lastNone := false,
+                   aborted := if f.s.sock.isEmpty then f.aborted else hasAbort evs }
   | .extract =>
     match getUserCommand f.s with
     | .error e => .error e
@@ -48,11 +52,11 @@ def fStep (f : F) : FOp → Except String F
       .ok { f with s := s', delivered := f.delivered ++ r.toList,
                    clean := f.clean && decide (f.s.tend - f.s.tstart + cutMargin ≤ MAXT), lastNone := r.isNone }
 
-def fRun (f : F) : List FOp → Except String F
+def fRun (o : Oracle) (f : F) : List FOp → Except String F
   | [] => .ok f
-  | op :: ops => match fStep f op with
+  | op :: ops => match fStep o f op with
     | .error e => .error e
-    | .ok f' => fRun f' ops
+    | .ok f' => fRun o f' ops
 
 theorem take_len_sub_drop (l : List Byte) (n : Nat) : l.take (l.length - (l.drop n).length) = l.take n := by
   rw [List.length_drop]
@@ -80,7 +84,8 @@ structure TelnetK (f : F) : Prop where
   drained : f.lastNone = true → cmdsOf [] (pend f.s) = []
   sentEq : f.received ++ f.s.sock = f.sent
 
-theorem telnetK_step {f f' : F} (op : FOp) (k : f.clean = true → TelnetK f) (h : fStep f op = .ok f') :
+theorem telnetK_step {o : Oracle} (hnd : NoDest o) {f f' : F} (op : FOp) (k : f.clean = true → TelnetK f)
+    (h : fStep o f op = .ok f') :
     f'.clean = true → TelnetK f' := by
   intro hc'
   cases op with
@@ -92,7 +97,7 @@ theorem telnetK_step {f f' : F} (op : FOp) (k : f.clean = true → TelnetK f) (h
       (fun hh => by cases hh), by show f.received ++ (f.s.sock ++ b) = f.sent ++ b; rw [← List.append_assoc, k.sentEq]⟩
   | read =>
     simp only [fStep] at h
-    cases hg : getUserData f.s with
+    cases hg : getUserData o f.s with
     | error e => rw [hg] at h; cases h
     | ok res =>
       obtain ⟨s', evs⟩ := res
@@ -102,7 +107,7 @@ theorem telnetK_step {f f' : F} (op : FOp) (k : f.clean = true → TelnetK f) (h
       have k := k hc'.1
       have hk2 : keepsPending (f.s.tend - f.s.tstart) = true := by
         have := hc'.2; simp only [readOK, k.port] at this; exact this
-      obtain ⟨s2, evs2, hg2, i2, p2, hev, hcase⟩ := telnet_read_exact k.inv k.port k.single hk2
+      obtain ⟨s2, evs2, hg2, i2, p2, hev, hcase⟩ := telnet_read_exact hnd k.inv k.port k.single hk2
       rw [hg] at hg2
       injection hg2 with hg2
       injection hg2 with e1 e2
@@ -174,17 +179,18 @@ theorem telnetK_init : TelnetK { s := S.init .telnet } := by
     have : pend (S.init .telnet) = [] := slice_nil_of_ge _ (Nat.le_refl _)
     rw [this, hasCmd_nil] at h; cases h
 
-theorem telnetK_run (ops : List FOp) : ∀ f f', (f.clean = true → TelnetK f) → fRun f ops = .ok f' →
+theorem telnetK_run {o : Oracle} (hnd : NoDest o) (ops : List FOp) : ∀ f f', (f.clean = true → TelnetK f) →
+    fRun o f ops = .ok f' →
     (f'.clean = true → TelnetK f') := by
   induction ops with
   | nil => intro f f' k h; simp only [fRun] at h; injection h with h; subst h; exact k
   | cons op ops ih =>
     intro f f' k h
     simp only [fRun] at h
-    cases hs : fStep f op with
+    cases hs : fStep o f op with
     | error e => rw [hs] at h; cases h
     | ok f1 =>
       rw [hs] at h
-      exact ih f1 f' (telnetK_step op k hs) h
+      exact ih f1 f' (telnetK_step hnd op k hs) h
 
 end NV.C13
